@@ -431,7 +431,7 @@ class Explorer(object):
                 return self.value_of(x['t'] if c else x['e'], st, loadpos)
         return None
 
-    def split(self, e, st, loadpos, limit=4):
+    def split(self, e, st, loadpos, limit=16):
         """[(state, abstract value)]: when e depends on one position and takes at most `limit` distinct values over that
         position's byte set, the state is split per value; otherwise one entry with value_of()."""
         v = self.value_of(e, st, loadpos)
